@@ -101,7 +101,14 @@ def main():
     broken = []; undecided = []; violations = []; known_lines = []
     # ------------------------------------------------------------------ engine P
     pres = run_p(cfg.get('P', []), REPO)
-    rres_holder = {}
+    for spec in cfg.get('S', []):
+        # syntactic contract checks on the real AST (back end 'ast'); soft: without a witness from engine R they can only make the run undecided
+        modname, fname = spec.split(':'); t1 = time.time()
+        try:
+            obls = getattr(importlib.import_module(modname), fname)(REPO)
+            pres.append(dict(function=fname, module=modname, status='ok', obligations=obls, time=time.time() - t1, soft=True))
+        except Exception:
+            pres.append(dict(function=fname, module=modname, status='CRASH', detail=traceback.format_exc()[-1500:], obligations=[], time=0, soft=True))
     # engine R runs while we triage P? keep it simple: sequential start after P (P is seconds)
     rres = run_r(prop, cfg.get('R', []), tier, seed) if cfg.get('R') else []
     base_path = os.path.join(ROOT, 'baseline', 'obligations.json')
@@ -145,7 +152,7 @@ def main():
         for o in fr['obligations']:
             if o['status'] == 'canary-VACUOUS': broken.append('vacuous premises: ' + o['name'])
             elif o['status'] in ('not-discharged', 'undecided'):
-                p_open.append(dict(name=o['name'], function=fr['function'], status=o['status'], detail=o['detail'], was_discharged=o['name'] in base))
+                p_open.append(dict(name=o['name'], function=fr['function'], status=o['status'], detail=o['detail'], was_discharged=(o['name'] in base) and not fr.get('soft')))
     missing = sorted(b for b in base if b not in set(names))
     for po in p_open:
         kf = known_for(po['name'], None)
@@ -154,7 +161,7 @@ def main():
                 reported_known.add(kf['id']); known_lines.append('KNOWN-FINDING: property=%s %s' % (prop, kf['description']))
             continue
         fn_short = po['function'].split('@')[0]
-        wit = [f for f in r_fail if f['function'] == fn_short or f['function'] == po['function']]
+        wit = [f for f in r_fail if f['function'] == fn_short or f['function'] == po['function'] or f['function'].split('.')[0] == po['name'].split('.')[0]]
         wit = [f for f in wit if known_for(f['clause'], f['witness']) is None]
         if wit:
             path = write_replay('witness', dict(property=prop, obligation=po['name'], function=po['function'], solver=po['detail'], clause=wit[0]['clause'], witness=wit[0]['witness'], message=wit[0]['message'], module=[r['module'] for r in rres]))
